@@ -85,6 +85,16 @@ fn load_text(lines: &[String], mode: &str) -> Result<Tree, String> {
     })
 }
 
+/// c17_load: [model, layout, fault, [line..], mode]: the model part is for the Coq side only
+pub fn c17_load(input: &Tree) -> Result<Tree, String> {
+    let xs = input.as_list()?;
+    if xs.len() != 5 {
+        return Err("c17_load: arity".into());
+    }
+    let lines = lines_of(&xs[3])?;
+    load_text(&lines, xs[4].as_str()?)
+}
+
 pub fn mps_load(input: &Tree) -> Result<Tree, String> {
     let xs = input.as_list()?;
     if xs.len() != 2 {
@@ -178,6 +188,7 @@ pub fn mps_cross(input: &Tree) -> Result<Tree, String> {
 pub fn dispatch(op: &str, input: &Tree) -> Option<Result<Tree, String>> {
     match op {
         "mps_load" => Some(mps_load(input)),
+        "c17_load" => Some(c17_load(input)),
         "mps_write" => Some(mps_write(input)),
         "mps_cross" => Some(mps_cross(input)),
         _ => None,
